@@ -41,7 +41,11 @@ Ok(v)   == [ok |-> TRUE, out |-> <<v>>, any |-> FALSE]
 Fail    == [ok |-> FALSE, out |-> <<>>, any |-> FALSE]
 Assert(b) == [ok |-> b, out |-> <<>>, any |-> FALSE]
 
-(* a: sequence of operand values; n: the integer parameter of ToBinary *)
+\* coefficients are given as field elements (P-1 = -1, P-2 = -2)
+PlonkExprCoeffs == << <<1, 2, 3, 4>>, <<0, 1, P - 1, 0>>, <<2, 0, 1, 5>> >>
+PlonkGateCoeffs == << <<1, 1, P - 1, 0, 0>>, <<0, 0, P - 1, 1, 0>>, <<2, 3, P - 2, 1, 1>> >>
+
+(* a: sequence of operand values; n: the integer parameter of ToBinary / the coefficient pattern of the PLONK calls *)
 Eval(op, a, n) ==
   CASE op = "Add"  -> Ok(Add2(a[1], a[2]))
     [] op = "Add3" -> Ok(Add2(Add2(a[1], a[2]), a[3]))
@@ -70,6 +74,13 @@ Eval(op, a, n) ==
           IF IsBool(a[1]) /\ IsBool(a[2]) THEN Ok(a[3 + a[1] + 2 * a[2]]) ELSE Fail
     [] op = "IsZero" -> Ok(IF a[1] = 0 THEN 1 ELSE 0)
     [] op = "Cmp" -> Ok(IF a[1] > a[2] THEN 1 ELSE IF a[1] = a[2] THEN 0 ELSE P - 1)
+    \* PLONK-specific API (sparse builder only); n selects one of three fixed coefficient patterns
+    [] op = "PlonkExpr" ->   \* res = qL.a + qR.b + qM.ab + qC
+          LET q == PlonkExprCoeffs[n]
+          IN Ok((q[1] * a[1] + q[2] * a[2] + q[3] * Mul2(a[1], a[2]) + q[4]) % P)
+    [] op = "PlonkGate" ->   \* asserts qL.a + qR.b + qO.o + qM.ab + qC = 0
+          LET q == PlonkGateCoeffs[n]
+          IN Assert((q[1] * a[1] + q[2] * a[2] + q[3] * a[3] + q[4] * Mul2(a[1], a[2]) + q[5]) % P = 0)
     [] op = "AssertIsEqual" -> Assert(a[1] = a[2])
     [] op = "AssertIsDifferent" -> Assert(a[1] # a[2])
     [] op = "AssertIsBoolean" -> Assert(IsBool(a[1]))
@@ -78,13 +89,14 @@ Eval(op, a, n) ==
 
 Ops == {"Add", "Add3", "Sub", "Sub3", "Neg", "Mul", "Mul3", "MulAcc", "Div", "DivUnchecked", "Inverse",
         "ToBinary", "FromBinary", "Xor", "Or", "And", "Select", "Lookup2", "IsZero", "Cmp",
-        "AssertIsEqual", "AssertIsDifferent", "AssertIsBoolean", "AssertIsCrumb", "AssertIsLessOrEqual"}
+        "AssertIsEqual", "AssertIsDifferent", "AssertIsBoolean", "AssertIsCrumb", "AssertIsLessOrEqual",
+        "PlonkExpr", "PlonkGate"}
 
 Arity(op) ==
   CASE op \in {"Neg", "Inverse", "ToBinary", "IsZero", "AssertIsBoolean", "AssertIsCrumb"} -> 1
-    [] op \in {"Add", "Sub", "Mul", "Div", "DivUnchecked", "Xor", "Or", "And", "Cmp",
+    [] op \in {"Add", "Sub", "Mul", "Div", "DivUnchecked", "Xor", "Or", "And", "Cmp", "PlonkExpr",
                "AssertIsEqual", "AssertIsDifferent", "AssertIsLessOrEqual"} -> 2
-    [] op \in {"Add3", "Sub3", "Mul3", "MulAcc", "FromBinary", "Select"} -> 3
+    [] op \in {"Add3", "Sub3", "Mul3", "MulAcc", "FromBinary", "Select", "PlonkGate"} -> 3
     [] op = "Lookup2" -> 6
 
 (* sanity theorems checked by TLC in ApiSemantics.cfg *)
